@@ -182,7 +182,13 @@ pub fn iter_chain<const NI: usize, const NF: usize>() {
     let (int, frac, e) = iter_inputs::<NI, NF>();
     let base = verif_parse_number(int.iter(), frac.iter(), e);
     let k: usize = NI / 2; // concrete split point (a symbolic one multiplies the unrolled loops)
-    let ch = verif_parse_number(int[..k].iter().chain(int[k..].iter()), frac.iter(), e);
+    let mut second = [0u8; NI]; // second half in a separate buffer
+    let mut i = k;
+    while i < NI {
+        second[i - k] = int[i];
+        i += 1;
+    }
+    let ch = verif_parse_number(int[..k].iter().chain(second[..NI - k].iter()), frac.iter(), e);
     assert!(ch == base);
 }
 
@@ -221,8 +227,16 @@ pub fn iter_fraction<const NF: usize, const Z: usize, const NF2: usize, const MO
         let c = verif_parse_number(empty.iter(), Cursor { data: &frac, pos: 0 }, e);
         assert!(c == base);
     } else if MODE == 1 {
-        let k: usize = NF / 2;
-        let ch = verif_parse_number(empty.iter(), frac[..k].iter().chain(frac[k..].iter()), e);
+        // two SEPARATE buffers, split inside the run of leading zeros: the first significant digit lives in the second
+        // buffer (a result that depends on addresses or contiguity must show up)
+        let k: usize = if Z >= 1 { 1 } else { NF / 2 };
+        let mut second = [0u8; NF];
+        let mut i = k;
+        while i < NF {
+            second[i - k] = frac[i];
+            i += 1;
+        }
+        let ch = verif_parse_number(empty.iter(), frac[..k].iter().chain(second[..NF - k].iter()), e);
         assert!(ch == base);
     } else {
         let mut with = [b'_'; NF2];
